@@ -56,6 +56,8 @@ class C14(EngineBase):
                              p_inplace=cfg["p_inplace"], sparsity=cfg["sparsity"],
                              max_charges=cfg.get("max_charges", 3), max_size=cfg.get("max_size", 3))
             st.ctx.p_ctor_phases = cfg.get("p_ctor_phases", 0.0)
+            st.ctx.nonfinite = True
+            st.ctx.deny.add("align_inplace")
             import random
             st.ctx.weights = ops.swarm_weights(random.Random(cfg["wseed"]))
         steps = []
